@@ -69,9 +69,21 @@ pub(crate) fn gen(r: &mut Rng) -> Case {
         8 => {
             let sy: Vec<String> = (0..2).map(|_| format!("{}{}", r.pick(&CONS), r.pick(&VOWS))).collect();
             let n = r.range(3, 6);
-            c.word = (0..n).map(|_| { let s = r.pick(&sy).clone(); if r.chance(1, 8) { format!("{s}{}", r.pick(&CONS)) } else if r.chance(1, 10) { format!("{s}51") } else { s } }).collect::<Vec<_>>().join(".");
+            // the two recurring syllables may carry a tone or a secondary stress of their own (part of what is captured and compared)
+            let deco: Vec<(String, String)> = sy.iter().map(|_| match r.below(5) { 0 => (String::new(), "51".to_string()), 1 => ("ˌ".to_string(), String::new()), 2 => ("ˌ".to_string(), "5".to_string()), _ => (String::new(), String::new()) }).collect();
+            let mut w = String::new();
+            for i in 0..n {
+                let k = r.below(sy.len()); let s = sy[k].clone();
+                let (pre, post) = if r.chance(3, 4) { deco[k].clone() } else { (String::new(), String::new()) };
+                let body = if r.chance(1, 8) { format!("{s}{}", r.pick(&CONS)) } else { s };
+                if i > 0 && pre.is_empty() { w.push('.') }
+                w += &format!("{pre}{body}{post}");
+            }
+            c.word = w;
             c.family = "var-context:syllable".into();
-            c.rule = "% > [+stress] / %=1 _ 1".into();
+            // the binder is a syllable or a structure that any syllable satisfies, in the context or in the exception's stead
+            let binder = *r.pick(&["%", "%", "⟨...⟩", "⟨..⟩", "<...>"]);
+            c.rule = format!("% > [+stress] / {binder}=1 _ 1");
         }
         _ => {
             let sy: Vec<String> = (0..2).map(|_| format!("{}{}", r.pick(&CONS), r.pick(&VOWS))).collect();
